@@ -38,7 +38,7 @@ var thoroughOps = map[string][]mutOp{
 	"C18": {mutDropReturn, mutCtxBackground, mutDropTeardown},
 	"C19": {mutDupForward, mutCtxBackground, mutDropTeardown},
 	"C20": {mutIgnoreLimit, mutDropReturn},
-	"C02": {mutUnsafeCtor, mutAsyncNext, mutDropLocksOf("subscriber"), mutDropLocksOf("subjects")},
+	"C02": {mutUnsafeCtor, mutAsyncNext, mutDropLocksOf("subscriber"), mutDropLocksOf("subjects-broadcast")},
 	"C03": {mutDropTeardown, mutDropLocksOf("subscription")},
 	"C06": {mutDropLocksOf("subscription")},
 	"C11": {mutDropLocksOf("connectable")},
